@@ -873,7 +873,9 @@ class PythonTypesBackend(CodeBackend):
 
         all_omitted_callers = child_omitted_callers | parent_omitted_callers
         if len(all_omitted_callers) != 0:
-            self.emit('{}._permissioned_tagmaps = {}'.format(class_name, all_omitted_callers))
+            # emit the set in sorted order so that output does not follow the hash seed
+            self.emit('{}._permissioned_tagmaps = {{{}}}'.format(
+                class_name, ', '.join(repr(c) for c in sorted(all_omitted_callers))))
         for omitted_caller in sorted(all_omitted_callers | {None}, key=str):
             is_public = omitted_caller is None
             tagmap_name = '_tagmap' if is_public else '_{}_tagmap'.format(omitted_caller)
